@@ -34,3 +34,5 @@ def step (st : Option Seg) (ws : List String) : Option Seg × String :=
 def drive : IO Unit := driveLoop (none : Option Seg) step
 
 end Vgi.Drive.C34
+
+def main : IO Unit := Vgi.Drive.C34.drive
